@@ -571,6 +571,11 @@ def gen_actor_case(rng, name, props, logger=False):
                 oid = rng.choice(list(owners))
                 ops.append({"op": "ownanon", "oid": oid})
                 owners.pop(oid, None)
+            if rng.random() < 0.02:
+                # a shutdown request is pending for a while: only the event loop may care
+                ops.append({"op": "shutdown"})
+            elif rng.random() < 0.02:
+                ops.append({"op": "shutreason"})
             if logger and rng.random() < 0.1:
                 ops.append({"op": "logcheck"})
             if logger and rng.random() < 0.08:
@@ -748,6 +753,8 @@ def inject_boom(rng, case):
     b = rng.choice(bodies)
     b.insert(rng.randrange(0, len(b) + 1), {"op": "boom"})
     case["boom"] = True
+    # half of the time the frame owning the Stakker is unwound too (Stakker dropped while panicking)
+    case["unwind_stakker"] = rng.random() < 0.5
     return case
 
 
@@ -764,5 +771,10 @@ def gen_cases(seed, plan, props):
             c = FAMILIES[fam](rng, "%s-%d-%d" % (fam, seed, i), props)
             if rng2.random() < BOOM_RATE.get(fam, 0):
                 c = inject_boom(rng2, c)
+            if fam in ("q", "a", "qgrow", "t") and rng2.random() < 0.06:
+                # somebody tries to create a second Stakker while this one is alive with work pending
+                pos = [i for i, o in enumerate(c["ops"]) if o.get("op") == "run"]
+                if pos:
+                    c["ops"].insert(rng2.choice(pos), {"op": "dupstakker"})
             out.append(c)
     return out
